@@ -642,3 +642,10 @@ def x15(cx: Cx, ob: Ob) -> None:
     from .c09 import d4 as propagation
 
     propagation(cx, ob)
+
+
+@obligation("C02-X22", "a sub-converter answers for every name it was asked for (shared with C09-D3): get_subconverter keeps a record exactly when its canonical prefix OR one of its synonyms is requested, so expansion through a requested synonym still resolves", floor=1)
+def x22(cx: Cx, ob: Ob) -> None:
+    from .c09 import d3 as subconverter_selection
+
+    subconverter_selection(cx, ob)
